@@ -316,6 +316,7 @@ fn p_into_opaque() {
     assert!(Arc::strong_count(&keep) == n, "C10 into_opaque leaves count unchanged");
     let o2 = o.clone();
     assert!(Arc::strong_count(&keep) == n + 1, "C10 opaque clone increments");
+    assert!(words3(&o2) == w, "C10 a clone of an opaque handle carries the same instance and the same (creating module's) function pair");
     drop(o);
     drop(o2);
     assert!(Arc::strong_count(&keep) == n - 1, "C10 opaque drops decrement");
@@ -325,6 +326,31 @@ fn p_into_opaque() {
     drop(keep);
     assert!(drops() == 1);
     kani::cover!(true, "p_into_opaque reaches end");
+}
+
+#[kani::proof]
+fn p_into_opaque_clone_is_last() {
+    // the CLONE of a type-erased handle is the last holder: the value is destroyed exactly then,
+    // through the function stored by the creating module (which knows the real type)
+    let v: u32 = kani::any();
+    let some: bool = kani::any();
+    if some {
+        let o: CArcSome<c_void> = CArcSome::<D>::from(D::new(v)).into_opaque();
+        let o2 = o.clone();
+        assert!(words3(&o2) == words3(&o), "C10 a clone of an opaque CArcSome carries the same words");
+        drop(o);
+        assert!(drops() == 0, "C10 value alive while the clone lives");
+        drop(o2);
+    } else {
+        let o: CArc<c_void> = CArc::<D>::from(D::new(v)).into_opaque();
+        let o2 = o.clone();
+        drop(o);
+        assert!(drops() == 0, "C10 value alive while the clone lives");
+        drop(o2);
+    }
+    assert!(drops() == 1, "C10 the value is destroyed exactly when the last (cloned, type-erased) handle goes");
+    kani::cover!(some, "CArcSome");
+    kani::cover!(!some, "CArc");
 }
 
 #[kani::proof]
